@@ -81,6 +81,26 @@ func body(c *kernel.Ctx) {
 	nextEpoch := eth2p0.Epoch(cfg.StartSlot/cfg.SlotsPerEpoch + 1)
 	cl.Chain.Forks = []simbeacon.Fork{{Epoch: nextEpoch, Version: eth2p0.Version{0x00, 0x00, 0x10, 0x21}}}
 	c.Set("sync_messages", syncMsgs)
+	// further duty kinds (tape value 0 = off): Electra-format attestations; the proposer pipeline
+	// (randao, then the block) for one validator in one slot of the run, in a third of the runs
+	pl := &plan{served: map[eth2p0.Root]string{}}
+	pl.electra = verifrt.Intn("cfg", 2) == 1
+	pl.proposer = verifrt.Intn("cfg", 3) == 2
+	if pl.proposer {
+		pl.propSlot = cfg.StartSlot + uint64(verifrt.Intn("cfg", nSlots))
+		pl.propVal = cl.Vals[verifrt.Intn("cfg", len(cl.Vals))]
+		pl.groupRandao = signRoot(pl.propVal.Secret, randaoSigningRoot(cl, epochOf(cl, pl.propSlot)))
+		verifrt.Probe("enabled:proposer")
+	}
+	if pl.electra {
+		verifrt.Probe("enabled:att-electra")
+	} else {
+		verifrt.Probe("enabled:att-deneb")
+	}
+	cur = pl
+	installBeacon(cl, pl, beaconErrs)
+	c.Set("attestation_format", map[bool]string{false: "deneb", true: "electra"}[pl.electra])
+	c.Set("proposer_pipeline", pl.proposer)
 	viewOf := make([][]int, n)
 	for i := range viewOf {
 		viewOf[i] = make([]int, nSlots)
@@ -189,6 +209,10 @@ func body(c *kernel.Ctx) {
 					verifrt.Note("restart n%d", me)
 					// the restarted node only takes part in duties of later slots (the scheduler does not
 					// re-trigger the running slot), but it receives peers' partial signatures for all duties
+					if cur.proposer && time.Now().Before(cl.SlotStart(cur.propSlot)) {
+						wg.Add(1)
+						verifrt.GoNode(cl.Nodes[me].Tag, func() { defer wg.Done(); proposerAt(ctx, cl, me, false) })
+					}
 					for s := 0; s < nSlots; s++ {
 						slot := firstSlot + uint64(s)
 						if time.Now().Before(cl.SlotStart(slot).Add(cfg.SlotDuration / 3)) {
@@ -211,6 +235,10 @@ func body(c *kernel.Ctx) {
 
 // runNode triggers node i's duties at their time and runs its validator client.
 func runNode(ctx context.Context, c *kernel.Ctx, cl *cluster.Cluster, i int, firstSlot uint64, nSlots int, byz bool, wg *sync.WaitGroup) {
+	if n := cl.Nodes[i]; n != nil && cur.proposer {
+		wg.Add(1)
+		verifrt.GoNode(n.Tag, func() { defer wg.Done(); proposerAt(ctx, cl, i, byz) })
+	}
 	for s := 0; s < nSlots; s++ {
 		slot := firstSlot + uint64(s)
 		n := cl.Nodes[i]
@@ -266,11 +294,11 @@ func dutyAt(ctx context.Context, c *kernel.Ctx, cl *cluster.Cluster, i int, slot
 				verifrt.Fault("vc-slow")
 				verifrt.Sleep(time.Duration(1+verifrt.Intn("w", 8)) * time.Second)
 			}
-			err := cl.RunVC(n, slot, v)
+			err := runVC(cl, n, slot, v)
 			verifrt.Note("n%d vc slot %d val %d err=%v", i, slot, v.Index, err != nil)
 			if err == nil && mode == 5 {
 				verifrt.Fault("vc-duplicate-submission")
-				_ = cl.RunVC(n, slot, v)
+				_ = runVC(cl, n, slot, v)
 			}
 		})
 	}
@@ -291,8 +319,26 @@ func byzantine(ctx context.Context, cl *cluster.Cluster, i int, slot uint64) {
 		if verifrt.Intn("a", 4) == 0 {
 			dslot = slot + uint64(verifrt.Intn("a", 3)) // another duty
 		}
+		// Electra runs: mostly Electra-format partials over (other) index-0 data; also the same data in a
+		// Deneb container (same message root as the honest partials when the view is the decided one) and
+		// pre-Electra style data (index = committee) in an Electra container
+		attFmt := 0
+		if cur.electra {
+			attFmt = verifrt.Intn("a", 4)
+		}
 		mk := func(view int, signer tbls.PrivateKey, shareIdx int) *pbv1.ParSigExMsg {
-			att := cl.SignAttestation(signer, v, cl.AttData(view, eth2p0.Slot(dslot), v.Committee))
+			var att *eth2spec.VersionedAttestation
+			switch {
+			case !cur.electra:
+				att = cl.SignAttestation(signer, v, cl.AttData(view, eth2p0.Slot(dslot), v.Committee))
+			case attFmt == 1:
+				verifrt.Fault("byz:electra-data-in-deneb-container")
+				att = signAtt(cl, signer, v, electraData(cl, view, eth2p0.Slot(dslot), v.Committee), false)
+			case attFmt == 2:
+				att = signAtt(cl, signer, v, cl.AttData(view, eth2p0.Slot(dslot), v.Committee), true)
+			default:
+				att = signAtt(cl, signer, v, electraData(cl, view, eth2p0.Slot(dslot), v.Committee), true)
+			}
 			ps, err := core.NewPartialVersionedAttestation(att, shareIdx)
 			if err != nil {
 				panic(err)
@@ -391,6 +437,14 @@ func (o *oracle) onBroadcast(b cluster.Broadcast) {
 		o.onSyncMessage(b, key, sm)
 		return
 	}
+	switch d := b.Data.(type) {
+	case core.SignedRandao:
+		o.onRandao(b, key, d)
+		return
+	case core.VersionedSignedProposal:
+		o.onProposal(b, key, d)
+		return
+	}
 	att, ok := b.Data.(core.VersionedAttestation)
 	if !ok {
 		c.Violate("C01", "broadcast-type", "unexpected-signed-data-type", "node %d broadcast %T for %s", b.Node, b.Data, key)
@@ -407,7 +461,12 @@ func (o *oracle) onBroadcast(b cluster.Broadcast) {
 	if err != nil {
 		panic(err)
 	}
-	dom := simbeacon.ComputeDomain(simbeacon.DomainTypes["DOMAIN_BEACON_ATTESTER"], cl.Chain.ForkVersion, cl.Chain.GenesisValidatorsRoot)
+	// consensus spec: DOMAIN_BEACON_ATTESTER at data.target.epoch (the same for every attestation format)
+	if data.Target == nil || data.Source == nil {
+		c.Violate("C01", "broadcast-type", "attestation-without-data", "node %d: attestation data without checkpoints", b.Node)
+		return
+	}
+	dom := simbeacon.ComputeDomain(simbeacon.DomainTypes["DOMAIN_BEACON_ATTESTER"], cl.Chain.VersionAt(data.Target.Epoch), cl.Chain.GenesisValidatorsRoot)
 	sr := simbeacon.SigningRoot(objRoot, dom)
 	var val *cluster.Validator
 	for _, v := range cl.Vals {
@@ -441,15 +500,32 @@ func (o *oracle) onBroadcast(b cluster.Broadcast) {
 	}
 	okView := false
 	for view := 0; view < o.views; view++ {
-		r, _ := cl.AttData(view, data.Slot, val.Committee).HashTreeRoot()
+		served := cl.AttData(view, data.Slot, val.Committee)
+		if cur.electra {
+			served = electraData(cl, view, data.Slot, val.Committee) // Electra beacon nodes serve index 0
+		}
+		r, _ := served.HashTreeRoot()
 		if r == objRoot {
 			okView = true
 		}
 	}
 	if !okView {
-		c.Violate("C01", "validity", "signed-content-never-fetched-by-an-honest-node", "%s: node %d broadcast attestation data (head %x) that no honest node's beacon node served", key, b.Node, data.BeaconBlockRoot[:3])
+		c.Violate("C01", "validity", "signed-content-never-fetched-by-an-honest-node", "%s: node %d broadcast attestation data (head %x index %d) that no honest node's beacon node served", key, b.Node, data.BeaconBlockRoot[:3], data.Index)
+		return
 	}
-	_ = eth2spec.DataVersionDeneb
+	// reach probes: which format completed, and whether the (unsigned) carrier fields are the honest ones
+	switch {
+	case att.Version == eth2spec.DataVersionElectra && cur.electra:
+		o.mark("att-electra")
+		ci, err := att.CommitteeIndex()
+		if err != nil || ci != val.Committee || att.ValidatorIndex == nil || *att.ValidatorIndex != val.Index {
+			verifrt.Probe("broadcast-attestation-with-foreign-unsigned-fields")
+		}
+	case att.Version == eth2spec.DataVersionDeneb && !cur.electra:
+		o.mark("att-deneb")
+	default:
+		verifrt.Probe("broadcast-attestation-in-foreign-container")
+	}
 }
 
 func (o *oracle) onSyncMessage(b cluster.Broadcast, key string, sm core.SignedSyncMessage) {
@@ -503,8 +579,16 @@ func (o *oracle) final() {
 	if runSyncMsgs {
 		total *= 2
 	}
+	if cur.proposer {
+		total += 2 // randao and block of the proposing validator
+	}
 	o.c.Set("pairs_total", total)
 	if len(o.roots) == total {
 		verifrt.Probe("all-duties-completed")
+	}
+	for _, kind := range []string{"att-deneb", "att-electra", "randao", "proposer"} {
+		if o.done[kind] {
+			verifrt.Probe("completed:" + kind)
+		}
 	}
 }
